@@ -155,7 +155,7 @@ PROPS = {
                 "BaseWorkflow.__check_working", "BaseWorkflow.__check_finished", "BaseTask.can_add_resources",
                 "BaseWorker.record_assigned_task_id", "BaseFacility.record_assigned_task_id",
                 "BaseTask.record_allocated_workers_facilities_id",
-                "BaseWorker.initialize", "BaseFacility.initialize", "BaseTask.initialize"],
+                "BaseWorker.initialize", "BaseFacility.initialize", "BaseTask.initialize", "BaseProject.__allocate@workers"],
         "static": COMMON_STATIC,
         "level_text": "Function-level contracts, all inputs, arbitrary set order: release on finish (every resource a finishing task "
                       "held gets an empty assignment list and state FREE; nothing else is touched; exclusive two-way consistency is "
@@ -170,7 +170,7 @@ PROPS = {
     "C04": {
         "inv": ["BaseTask.can_add_resources", "BaseProject.__is_allocated_worker", "BaseProject.__is_allocated_facility",
                 "BaseWorker.has_workamount_skill", "BaseFacility.has_workamount_skill", "BaseWorker.has_facility_skill",
-                "BaseOrganization.check_update_state_from_absence_time_list", "BaseProject.simulate"],
+                "BaseOrganization.check_update_state_from_absence_time_list", "BaseProject.simulate", "BaseProject.__allocate@workers"],
         "static": COMMON_STATIC,
         "level_text": "can_add_resources is proved equal to the eligibility predicate (state, solo rules both ways, fixed-ID lists, "
                       "unassigned facility, facility/worker/operator skills > tol) for all tasks/workers/facilities, and each clause of "
@@ -219,7 +219,9 @@ PROPS = {
 
     "C05": {
         "inv": ["BaseProject.simulate", "BaseProject.initialize", "BaseWorkflow.initialize", "BaseWorkflow.__check_ready",
-                "BaseWorkflow.__check_working", "BaseWorkflow.__check_finished"],
+                "BaseWorkflow.__check_working", "BaseWorkflow.__check_finished",
+                # completion rests on allocation completeness: an eligible, acceptable worker is never passed over
+                "BaseProject.__allocate@workers"],
         "static": COMMON_STATIC,
         "level_text": "Safety clauses, unbounded: BaseProject.simulate is verified against its contract with an inductive invariant of the "
                       "main loop (every model, every run length, every absence list): status is FINISHED_SUCCESS iff all tasks are "
@@ -234,14 +236,17 @@ PROPS = {
         "explanation": "simulate: status/time clauses as loop invariant + posts at each return site",
     },
     "C06": {
-        "inv": ["BaseWorkflow.__check_ready", "BaseWorkflow.__check_working", "BaseWorkflow.__check_finished", "BaseTask.can_add_resources"],
+        "inv": ["BaseWorkflow.__check_ready", "BaseWorkflow.__check_working", "BaseWorkflow.__check_finished", "BaseTask.can_add_resources",
+                "BaseProject.__allocate@workers", "BaseProject.__is_allocated_worker", "BaseProject.__is_allocated_facility"],
         "static": COMMON_STATIC,
         "level_text": "Clauses (a), (b), (d) are completeness postconditions proved for all workflows and every set iteration order: a NONE "
                       "task whose start gate is open (FS predecessors FINISHED, SS predecessors started, including started-and-finished) "
                       "leaves NONE in the ready phase; a READY task with workers, or a free automatic task, starts in the working phase; "
                       "a WORKING task with remaining work < tol whose finish gate was already open finishes in the finish phase.",
-        "level_note": "Clause (c) (no idle eligible worker after allocation) is a property of BaseProject.__allocate, which is not yet under "
-                      "a verified contract; `already open` in (d) is the order-independent reading (predecessors finished before the phase).",
+        "level_note": "Clause (c) (no idle eligible worker after allocation) is proved for the branch of the allocation loop that serves a task "
+                      "without facility (block __allocate@workers, one execution for one task: every offered worker who is skilled, whose team "
+                      "targets the task and who is not taken is refused by can_add_resources in the final state); the facility branch and the "
+                      "composition over all tasks of a pass are not verified. `already open` in (d) is the order-independent reading.",
         "design_ref": "DESIGN.md section 6 C06",
         "assumptions": ["clause (c) idle-worker: not yet decided (bounded stand-in for __allocate pending)"],
         "explanation": "completeness of the three state phases",
@@ -252,7 +257,7 @@ PROPS = {
                 "BaseWorker.get_work_amount_skill_progress", "BaseFacility.get_work_amount_skill_progress", "BaseTask.perform",
                 "BaseWorkflow.perform", "BaseWorker.record_state", "BaseFacility.record_state",
                 "BaseWorker.check_update_state_from_absence_time_list", "BaseFacility.check_update_state_from_absence_time_list",
-                "BaseWorkflow.__check_working"],
+                "BaseWorkflow.__check_working", "BaseProject.remove_absence_time_list"],
         "static": COMMON_STATIC,
         "level_text": "Clause 1 (project-wide absence step) is a set of step obligations of the main loop of simulate, for all models and "
                       "absence lists: nothing is allocated, every worker/facility is logged ABSENCE and charged 0.0, and remaining work "
